@@ -318,3 +318,135 @@ Proof.
   split; [apply (nodupb_sound _ _ bytes_eqb_eq); vm_compute; reflexivity|].
   split; [vm_compute; tauto|]. split; [intros i nm fs H; destruct i; discriminate | apply cache_inv_empty].
 Qed.
+
+(* ================================================================== (G) kind tables from the Go source *)
+(* proto/type.go Type.IsPacked / FromProtoKindToType and proto/descriptor.go TypeDescriptor.IsPacked are translated from the Go text on
+   every build (gen/Gen_protokind.v, gen/Gen_proto.v); the panics of IsPacked / TypeToKind are explicit (result None). *)
+From DG Require Gen_proto Gen_protokind Check20g GenProtokindProofs.
+
+(* the model's [packable] is Type.IsPacked on every protoreflect kind 1..18; IsPacked panics exactly on LIST and MAP *)
+Theorem C15_packable_from_source :
+  (forall k, 1 <= k <= 18 -> Gen_protokind.Type_IsPacked k = Some (packable k)) /\
+  (forall t, 0 <= t < 256 -> (Gen_protokind.Type_IsPacked t = None <-> t = 19 \/ t = 20)).
+Proof. split; [exact GenProtokindProofs.Type_IsPacked_is_packable | exact GenProtokindProofs.Type_IsPacked_panics_iff]. Qed.
+Print Assumptions C15_packable_from_source.
+
+(* TypeDescriptor.IsPacked, on the atoms of the field the model elaborates (typ = mf_ty, elem.typ = mf_elemty, unpacked = the declaration
+   says [packed = false]), does not panic and answers the model's mf_packed - for singular, repeated and map fields *)
+Theorem C15_mf_packed_from_source :
+  forall tab m fd, (fd_label fd = 0 \/ fd_label fd = 1 \/ fd_label fd = 2) -> 1 <= fst (elem_of tab m fd) <= 18 ->
+  Gen_protokind.TypeDescriptor_IsPacked (GenProtokindProofs.td_of (elab_field tab m fd) fd) = Some (mf_packed (elab_field tab m fd)).
+Proof. exact GenProtokindProofs.TypeDescriptor_IsPacked_is_mf_packed. Qed.
+Print Assumptions C15_mf_packed_from_source.
+
+(* the type byte of an elaborated field is FromProtoKindToType(kind, isList, isMap) *)
+Theorem C15_mf_ty_from_source :
+  forall tab m fd, (fd_label fd = 0 \/ fd_label fd = 1 \/ fd_label fd = 2) -> 0 <= fst (elem_of tab m fd) < 256 ->
+  mf_ty (elab_field tab m fd) = Gen_proto.FromProtoKindToType (mf_kind (elab_field tab m fd)) (fd_label fd =? 1) (fd_label fd =? 2).
+Proof. exact GenProtokindProofs.FromProtoKindToType_is_mf_ty. Qed.
+Print Assumptions C15_mf_ty_from_source.
+
+(* ==================================================================================================== *)
+(* The traversal as coded after b3482e7 / 80a31e9 (memo keyed by the fully-qualified name, [packed=false]
+   honoured): model/PIdlParse.v [parse_service]; proofs/PIdlParseProofs.v                                *)
+From DG Require Import PIdlParse PIdlParseProofs.
+
+(* parse_refines_pelab. For EVERY valid schema (schema_ok: references resolvable, numbers / keys distinct;
+   fully-qualified names unique) and every ParseServiceMode the graph built by the memoising traversal is
+   pelab's descriptor: one entry per selected method in order; every request / response root is a node built
+   from the declared type; EVERY node — so every node reachable through any chain of recursive or mutually
+   recursive references, where the memo hands out the descriptor still under construction — carries exactly the
+   elaborated field list of its declaration ([frel]: number, name, JSON name, kind, type, list, map, packed,
+   key / element type) and every message-typed field points to a node built from the declaration of the
+   resolved FULL name; no node is built from anything undeclared. Fuel = |message table| + 1 always suffices. *)
+Theorem C15_parse_refines_pelab :
+  forall mode s,
+    schema_ok mode s = true -> NoDup (map key_full (map fst (msg_table s))) ->
+    let d := pelab mode s in
+    let r := parse_service mode s in
+    let nodes := q_nodes (snd r) in
+    map (fun e => fst (fst e)) (fst r) = pd_methods d /\
+    Forall (entry_named nodes) (fst r) /\
+    (forall i nm fs, nth_error nodes i = Some (nm, fs) ->
+       exists mfs, lookup_msg (pd_msgs d) nm = Some mfs /\ Forall2 (frel nodes) mfs fs) /\
+    names_declared (pd_msgs d) nodes.
+Proof. exact parse_refines_pelab. Qed.
+Print Assumptions C15_parse_refines_pelab.
+
+(* what [frel] fixes: every attribute the accessors expose *)
+Theorem C15_frel_attributes :
+  forall nodes f g, frel nodes f g ->
+    mf_num g = mf_num f /\ mf_name g = mf_name f /\ mf_json g = mf_json f /\ mf_kind g = mf_kind f /\ mf_ty g = mf_ty f /\
+    mf_list g = mf_list f /\ mf_map g = mf_map f /\ mf_packed g = mf_packed f /\ mf_keyty g = mf_keyty f /\ mf_elemty g = mf_elemty f.
+Proof. exact frel_attrs. Qed.
+Print Assumptions C15_frel_attributes.
+
+(* the same for ANY memo key that separates the declared messages (the invariant behind the theorem above) *)
+Theorem C15_traversal_graph :
+  forall keyf tbl,
+    NoDup (map keyf (map fst tbl)) -> tbl_closed tbl ->
+    (forall m fs f, In (m, fs) tbl -> In f fs -> field_shaped f) ->
+    forall B ms, (length tbl <= B)%nat -> Forall (method_roots_declared tbl) ms ->
+    let r := qmethods keyf tbl (S B) ms in
+    map (fun e => fst (fst e)) (fst r) = ms /\
+    Forall (entry_named (q_nodes (snd r))) (fst r) /\
+    (forall i nm fs, nth_error (q_nodes (snd r)) i = Some (nm, fs) -> node_done tbl (q_nodes (snd r)) nm fs) /\
+    names_declared tbl (q_nodes (snd r)).
+Proof. exact qmethods_graph. Qed.
+Print Assumptions C15_traversal_graph.
+
+(* one call of parseMessage with descriptors under construction (open set O): memo hit or miss, recursion,
+   fuel: post-condition incl. "nodes outside O are never touched again" *)
+Theorem C15_parse_message_spec :
+  forall keyf tbl,
+    NoDup (map keyf (map fst tbl)) -> tbl_closed tbl ->
+    (forall m fs f, In (m, fs) tbl -> In f fs -> field_shaped f) ->
+    forall B target, rec_spec keyf tbl target B (qparse keyf tbl (S B) target).
+Proof. exact qparse_spec. Qed.
+Print Assumptions C15_parse_message_spec.
+
+(* a node built from a declared message carries the elaboration of THAT declaration *)
+Theorem C15_parse_node_is_declaration :
+  forall mode s f nm fds i fs,
+    schema_ok mode s = true -> NoDup (map key_full (map fst (msg_table s))) ->
+    In f s -> In (DMsg nm fds) (pf_decls f) ->
+    nth_error (q_nodes (snd (parse_service mode s))) i = Some (nm, fs) ->
+    Forall2 (frel (q_nodes (snd (parse_service mode s)))) (map (elab_field (symtab_of s f) nm) fds) fs.
+Proof. exact parse_node_is_declaration. Qed.
+Print Assumptions C15_parse_node_is_declaration.
+
+(* lookup corollaries on the traversal's output *)
+Theorem C15_parse_lookup_by_number_exact :
+  forall mode s f nm fds i fs n g,
+    schema_ok mode s = true -> NoDup (map key_full (map fst (msg_table s))) ->
+    In f s -> In (DMsg nm fds) (pf_decls f) ->
+    nth_error (q_nodes (snd (parse_service mode s))) i = Some (nm, fs) -> 0 <= n ->
+    (by_number fs n = LRes (Some g) <-> In g fs /\ mf_num g = n).
+Proof. exact parse_lookup_by_number_exact. Qed.
+Print Assumptions C15_parse_lookup_by_number_exact.
+
+Theorem C15_parse_lookups_refine_pelab :
+  forall mode s i nm fs,
+    schema_ok mode s = true -> NoDup (map key_full (map fst (msg_table s))) ->
+    nth_error (q_nodes (snd (parse_service mode s))) i = Some (nm, fs) ->
+    exists mfs, lookup_msg (pd_msgs (pelab mode s)) nm = Some mfs /\
+      (forall n, match by_number_spec mfs n, by_number_spec fs n with
+                 | LRes a, LRes b => opt_frel (q_nodes (snd (parse_service mode s))) a b | LPanic, LPanic => True | _, _ => False end) /\
+      (forall k, opt_frel (q_nodes (snd (parse_service mode s))) (by_key_spec mfs k) (by_key_spec fs k)).
+Proof. exact parse_lookups_refine_pelab. Qed.
+Print Assumptions C15_parse_lookups_refine_pelab.
+
+(* every path of message-typed fields from a root ends in the node of the declaration pelab names *)
+Theorem C15_parse_follow_eq :
+  forall mode s path i q,
+    schema_ok mode s = true -> NoDup (map key_full (map fst (msg_table s))) ->
+    named (q_nodes (snd (parse_service mode s))) i q ->
+    q_follow (q_nodes (snd (parse_service mode s))) path i = spec_follow (pd_msgs (pelab mode s)) path q.
+Proof. exact parse_follow_eq. Qed.
+Print Assumptions C15_parse_follow_eq.
+
+Example C15_witness_parse_service :
+  let r := parse_service 0 witness_schema in
+  NoDup (map key_full (map fst (msg_table witness_schema))) /\
+  match fst r with (_, i, _) :: _ => q_follow (q_nodes (snd r)) [2; 1] i | [] => None end = Some [w_p; w_B; w_Item].
+Proof. exact witness_parse_service. Qed.
